@@ -24,6 +24,7 @@ func main() {
 	out := fs.String("out", "-", "result summary (json)")
 	trace := fs.String("trace", "trace.ndjson", "ndjson trace to write")
 	seed := fs.Int64("seed", 1, "random seed (payload bytes, reference keys and nonces)")
+	clock := fs.Bool("clock", false, "the binary was built with the harness clock overlay (vinstr): also record how far the stamps written by the SDK are from the driven clock")
 	die(fs.Parse(os.Args[1:]))
-	die(wiredrv.Replay(*in, *trace, *out, *seed))
+	die(wiredrv.Replay(*in, *trace, *out, *seed, *clock))
 }
